@@ -137,6 +137,14 @@ class Builder:
 
     def build(self, v, ty: Optional[T.Ty] = None):
         if not _fits(v, ty):
+            if ty is not None and ty.k == "obj" and not isinstance(v, dict):
+                # the model gives a non-reference where an object is declared (an untyped corner of a candidate model): a
+                # blank object of the declared class, one per distinct model value
+                self._blank = getattr(self, "_blank", 0) + 1
+                try:
+                    return self.build({"$ref": f"blank:{ty.a[0].name}:{v!r}", "$class": ty.a[0].name}, ty)
+                except Exception:
+                    return None
             return _default_for(ty)
         if v is None or isinstance(v, (bool, int, float)):
             return v
@@ -202,8 +210,13 @@ class Builder:
                     if name.startswith("$"):
                         continue
                     fty = T.field_type(ci, name)
+                    if fty is None:  # attribute declared by `self.x: T = ...` in a method
+                        for c_ in ci.mro():
+                            if name in c_.self_annotations():
+                                fty = T.parse_ann(c_.self_annotations()[name], c_.module, c_)
+                                break
                     inner = T.strip_opt(fty) if fty is not None else None
-                    if inner is not None and inner.k == "obj" and inner.a[0].name in LOG_CLASSES:
+                    if (inner is not None and inner.k == "obj" and inner.a[0].name in LOG_CLASSES) or name in ("sys_log", "logger"):
                         built = _Quiet()
                     else:
                         built = self.build(val, fty)
@@ -447,6 +460,48 @@ class NativeSpec:
 
 
 # ------------------------------------------------------------------------------------------------- replay driver
+def _install_callee_pre_hook(label: str, memo: dict):
+    """Run-time check of a callee's contract precondition on the real code: the real callee is wrapped for the duration of the
+    replay; each call evaluates the named `requires` clause natively on the actual arguments."""
+    import inspect
+    try:
+        head = label.split("@")[0]
+        qual, prelabel = head.rsplit(".", 1)
+        key = next((k for k in REG.contracts if k.endswith("::" + qual)), None)
+        if key is None:
+            return None
+        con = REG.contracts[key]
+        expr = dict(con.requires).get(prelabel)
+        finfo = Repo.get().find(key)
+        if expr is None or finfo.cls is None:
+            return None
+        cls = _import_class(finfo.cls)
+        orig = cls.__dict__.get(finfo.name)
+        if orig is None or not callable(orig):
+            return None
+        mod = importlib.import_module(finfo.module.name)
+        tree = ast.parse("(" + expr.strip() + ")", mode="eval").body
+        sig = inspect.signature(orig)
+        state = {"violations": []}
+
+        def wrapper(*a, **kw):
+            try:
+                bound = sig.bind(*a, **kw)
+                bound.apply_defaults()
+                env = dict(bound.arguments)
+                ns2 = NativeSpec(mod.__dict__, memo, list(env.values()))
+                if not ns2.ev(tree, env):
+                    state["violations"].append(f"{qual}: requires `{prelabel}` ({expr[:120]}) is False for the arguments of this call")
+            except Exception as ex:  # the clause is not evaluable natively: says nothing
+                state.setdefault("errors", []).append(f"{type(ex).__name__}: {ex}")
+            return orig(*a, **kw)
+        setattr(cls, finfo.name, wrapper)
+        state["restore"] = lambda: setattr(cls, finfo.name, orig)
+        return state
+    except Exception:
+        return None
+
+
 def replay(key: str, model: dict, obligation: dict) -> dict:
     """Returns {'built': bool, 'reproduced': bool|None, 'detail': str, ...}.  reproduced=None: could not decide."""
     out: Dict[str, Any] = {"built": False, "reproduced": None, "detail": ""}
@@ -514,10 +569,21 @@ def replay(key: str, model: dict, obligation: dict) -> dict:
             call = lambda: fn(**{n: built[n] for n in names})  # noqa: E731
         raised = None
         result = None
+        pre_hook = None
+        if obligation["kind"] == "callpre":
+            pre_hook = _install_callee_pre_hook(obligation["label"], memo)
         try:
             result = call()
         except Exception as ex:  # the real code raised
             raised = ex
+        finally:
+            if pre_hook is not None:
+                pre_hook["restore"]()
+        if pre_hook is not None and pre_hook["violations"]:
+            out["reproduced"] = True
+            out["native_raised"] = f"{type(raised).__name__}: {raised}"[:300] if raised is not None else None
+            out["detail"] = ("callee precondition evaluated natively at the moment of the call: " + pre_hook["violations"][0])[:400]
+            return out
         out["native_result"] = repr(result)[:300]
         out["native_raised"] = f"{type(raised).__name__}: {raised}"[:300] if raised is not None else None
         kind, label = obligation["kind"], obligation["label"]
@@ -549,6 +615,11 @@ def replay(key: str, model: dict, obligation: dict) -> dict:
                     return out
                 out["reproduced"] = True
                 out["detail"] = f"real code raised {type(raised).__name__} on the model's input"
+            elif kind == "callpre":
+                # a callee precondition is a logical condition (often over ghost state): the real callee need not raise when
+                # it is violated, so a quiet native run says nothing
+                out["reproduced"] = None
+                out["detail"] = "callee precondition: no native counterpart to observe (the real callee did not raise)"
             else:
                 out["reproduced"] = False
                 out["detail"] = "real code did not raise on the model's input"
